@@ -227,6 +227,52 @@ def gen_top(replay={"driver": "replay/r_gen.c"}):
              expect=[c + "\\.postcondition\\.4", "contract_cb_builder\\.precondition", "jwt_encode_str\\.assertion"],
              clause_props=GEN_CLAUSE_PROPS, base_ensures=3, replay=replay)
 
+# =============================== C11 =======================================
+B64_C = "libjwt/base64.c"
+P["C11"] = {"property": "C11", "level": "proof", "units": [
+    U("C11.base64_encode.shape", "base64_encode (libjwt/base64.c)", B64_C, "contracts/base64_c.h",
+      "unsigned n; __CPROVER_assume(n <= B64_IN_MAX); unsigned char *in = malloc(n); __CPROVER_assume(n == 0 || in != NULL); "
+      "char *out = malloc((size_t)SPEC_ENC_LEN((size_t)n) + 1); __CPROVER_assume(out != NULL); base64_encode(in, n, out);",
+      "base64_encode/contract_C11shape_base64_encode", stubs=["stubs/ghost.c"], defines=["VERIF_NO_JWT_OPS_DEF"],
+      flags=["--conversion-check"],
+      loops={"base64_encode": [{"loop_id": 0, "vars": ["i", "j", "s", "l", "c", "in", "inlen", "out"],
+        "assigns": "i, j, s, l, c, __CPROVER_object_whole(out)",
+        "invariants": ["i <= inlen", "s == (int)(i % 3)", "j == 4 * (i / 3) + (i % 3)"],
+        "decreases": "inlen - i", "globals": {"g_b64_g": "g_b64_g"}}]},
+      loop_macro_headers=["contracts/loopmacros_b64.h"],
+      expect=["contract_C11shape_base64_encode\\.postcondition\\.1", "base64_encode\\.loop_invariant_step", "base64_encode\\.loop_decreases"],
+      timeout=600),
+    U("C11.base64_encode", "base64_encode (libjwt/base64.c)", B64_C, "contracts/base64_c.h",
+      "unsigned n; __CPROVER_assume(n <= B64_IN_MAX); unsigned char *in = malloc(n); __CPROVER_assume(n == 0 || in != NULL); "
+      "char *out = malloc((size_t)SPEC_ENC_LEN((size_t)n) + 1); __CPROVER_assume(out != NULL); base64_encode(in, n, out);",
+      "base64_encode/contract_C11_base64_encode", stubs=["stubs/ghost.c"], defines=["VERIF_NO_JWT_OPS_DEF"],
+      flags=[],
+      loops={"base64_encode": [{"loop_id": 0, "vars": ["i", "j", "s", "l", "c", "in", "inlen", "out"],
+        "assigns": "i, j, s, l, c, __CPROVER_object_whole(out)",
+        "invariants": ["i <= inlen", "s == (int)(i % 3)", "j == 4 * (i / 3) + (i % 3)", "i == 0 || l == in[i - 1]",
+            "(3 * g_b64_g + 2 < i) ==> (out[4 * g_b64_g] == SPEC_ENC0(in[3 * g_b64_g], in[3 * g_b64_g + 1], in[3 * g_b64_g + 2]) && "
+            "out[4 * g_b64_g + 1] == SPEC_ENC1(in[3 * g_b64_g], in[3 * g_b64_g + 1], in[3 * g_b64_g + 2]) && "
+            "out[4 * g_b64_g + 2] == SPEC_ENC2(in[3 * g_b64_g], in[3 * g_b64_g + 1], in[3 * g_b64_g + 2]) && "
+            "out[4 * g_b64_g + 3] == SPEC_ENC3(in[3 * g_b64_g], in[3 * g_b64_g + 1], in[3 * g_b64_g + 2]))",
+            "(i % 3 >= 1) ==> out[4 * (i / 3)] == SPEC_ENC0(in[3 * (i / 3)], 0, 0)",
+            "(i % 3 == 2) ==> out[4 * (i / 3) + 1] == SPEC_ENC1(in[3 * (i / 3)], in[3 * (i / 3) + 1], 0)"],
+        "decreases": "inlen - i", "globals": {"g_b64_g": "g_b64_g"}}]},
+      loop_macro_headers=["contracts/loopmacros_b64.h"],
+      expect=["contract_C11_base64_encode\\.postcondition\\.3", "base64_encode\\.loop_invariant_step", "base64_encode\\.loop_decreases"],
+      timeout=900, tier="thorough"),
+    U("C11.base64_decode", "base64_decode (libjwt/base64.c)", B64_C, "contracts/base64_c.h",
+      "unsigned n; __CPROVER_assume(n <= B64_IN_MAX); char *in = malloc(n); __CPROVER_assume(n == 0 || in != NULL); "
+      "unsigned char *out = malloc((size_t)3 * (n / 4) + 1); __CPROVER_assume(out != NULL); base64_decode(in, n, out);",
+      "base64_decode/contract_C11_base64_decode", stubs=["stubs/ghost.c"], defines=["VERIF_NO_JWT_OPS_DEF"],
+      flags=["--conversion-check"],
+      loops={"base64_decode": [{"loop_id": 0, "vars": ["i", "j", "c", "in", "inlen", "out"],
+        "assigns": "i, j, c, __CPROVER_object_whole(out)",
+        "invariants": ["i <= inlen", "(inlen & 3) == 0", "j + ((i % 4) != 0 ? 1u : 0u) == 3 * (i / 4) + (i % 4)"],
+        "decreases": "inlen - i"}]},
+      expect=["contract_C11_base64_decode\\.postcondition\\.1", "base64_decode\\.loop_invariant_step", "base64_decode\\.loop_decreases"],
+      timeout=600),
+]}
+
 # ============================ parsing units =================================
 VERIFY_JSON_STUBS = LIBC + ["stubs/time.c", "stubs/jansson.c", "stubs/alloc.c"]
 def parse_units(prop, clauses_name):
